@@ -650,6 +650,13 @@ def r3(ctx: Ctx, rid: str) -> None:
             e_t, f_t = edge_target(g, b, expired_edge), edge_target(g, b, fresh_edge)
             if e_t is not None and p.id in reachable_from(g, e_t, NORMAL) and (f_t is None or p.id not in reachable_from(g, f_t, NORMAL)):
                 ok_dom = True
+            elif e_t is not None and f_t is not None and p.id in reachable_from(g, e_t, NORMAL):
+                # the comparison lives in a helper analysed in place that answers `age if age > lease else None`, and the caller
+                # tests the answer against None: the `return None` exits cannot reach the PUT
+                from .common import none_inline_return_edges, reachable_excluding
+                dead_ = none_inline_return_edges(ctx, tk, p)
+                if dead_ and p.id not in reachable_excluding(g, f_t, dead_):
+                    ok_dom = True
         ctx.ob(rid, tk, "takeover ETag and lease age come from one head_object response", p, ok_same,
                "what was judged expired is exactly what the IfMatch replaces")
         ctx.ob(rid, tk, "takeover only after the lease lapsed", p, ok_dom,
@@ -793,6 +800,19 @@ def r5(ctx: Ctx, rid: str = "C19.R5") -> None:
             t, fl = edge_target(g, b, "true"), edge_target(g, b, "false")
             if t is not None and u.id in reachable_from(g, t, NORMAL) and (fl is None or u.id not in reachable_from(g, fl, NORMAL)):
                 ok = True
+        if not ok:
+            # the mode derived from which kernel-lock primitive could be imported (module flags), not tracked per acquisition:
+            # by scenario, on a platform that HAS a kernel lock (fcntl or msvcrt) the unlink is not reached
+            from .common import scenario_walk
+            flags_ = [nm for nm in ("FCNTL_AVAILABLE", "MSVCRT_AVAILABLE") if nm in rel.module.consts or any(
+                isinstance(x, ast.Name) and x.id == nm for n_ in g.nodes if n_.ast is not None for x in ast.walk(n_.ast))]
+            if len(flags_) == 2:
+                verdicts = []
+                for env_ in ({"FCNTL_AVAILABLE": True, "MSVCRT_AVAILABLE": False}, {"FCNTL_AVAILABLE": False, "MSVCRT_AVAILABLE": True}):
+                    reached_, undec_ = scenario_walk(ctx, rel, [g.entry], dict(env_))
+                    verdicts.append((not undec_) and u.id not in reached_)
+                r0_, u0_ = scenario_walk(ctx, rel, [g.entry], {"FCNTL_AVAILABLE": False, "MSVCRT_AVAILABLE": False})
+                ok = all(verdicts) and (u.id in r0_)
         ctx.ob(rid, rel, "unlink only in O_EXCL fallback mode", u, ok,
                "flock locks an inode: deleting the path would let a new process lock a different inode")
     ctx.ob(rid, rel, "release unlocks / closes the descriptor", None,
